@@ -598,6 +598,13 @@ class Interp:
             if n is None:
                 raise Unsupported('repeat count ' + str(rv['n']))
             v = tuple([a] * n)
+        elif k == 'other' and str(rv.get('dbg', '')).startswith('&raw const (fake) (*_'):
+            # the fake raw borrow rustc takes of a scrutinee for slice patterns (`[a, b] = *r`): the reference itself
+            import re as _re
+            m = _re.match(r'&raw const \(fake\) \(\*_(\d+)\)$', rv['dbg'])
+            if not m or int(m.group(1)) not in st:
+                raise Unsupported('rvalue ' + str(rv.get('dbg')))
+            v = st[int(m.group(1))]
         else:
             raise Unsupported('rvalue ' + k)
         if not lhs['proj']:
@@ -1545,6 +1552,52 @@ def h_from_residual(I, st, a, t, b):
     return _deref_arg(I, st, a[0])
 
 
+def h_split_last(I, st, a, t, b):
+    s_ = _seq_of(I, st, a[0])
+    if not s_:
+        return NONE
+    return SOME((('refval', s_[-1], ()), ('refval', tuple(s_[:-1]), ())))
+
+
+def h_split_first(I, st, a, t, b):
+    s_ = _seq_of(I, st, a[0])
+    if not s_:
+        return NONE
+    return SOME((('refval', s_[0], ()), ('refval', tuple(s_[1:]), ())))
+
+
+def h_iter_find_map(I, st, a, t, b):
+    for x in _items_of(I, st, a[0]):
+        r = _call_f(I, st, a[1], [x])
+        if isinstance(r, tuple) and r and r[0] == 'enum':
+            if r[1] == 1:
+                return r
+        else:
+            raise Unsupported('find_map closure returned %r' % (r,))
+    return NONE
+
+
+def h_result_ok(I, st, a, t, b):
+    v = _deref_arg(I, st, a[0])
+    if isinstance(v, tuple) and v and v[0] == 'enum':
+        return SOME(v[2][0]) if v[1] == 0 else NONE
+    raise Unsupported('ok() of %r' % (v,))
+
+
+def h_retain(I, st, a, t, b):
+    cur = _seq_of(I, st, a[0])
+    kept = tuple(x for x in cur if _truth(_call_f(I, st, a[1], [('refval', x, ())])))
+    I._write_ref(st, a[0], kept)
+    return ()
+
+
+def h_saturating_sub(I, st, a, t, b):
+    x, y = a[0], a[1]
+    if isinstance(x, int) and isinstance(y, int):
+        return max(x - y, 0)
+    raise Unsupported('saturating_sub of %r, %r' % (x, y))
+
+
 def h_to_vec(I, st, a, t, b):
     return tuple(_seq_of(I, st, a[0]))
 
@@ -1741,7 +1794,7 @@ BUILTINS.update({
     'Vec::is_empty': h_is_empty, 'slice::is_empty': h_is_empty, 'slice::last': h_seq_last, 'slice::first': h_seq_first, 'slice::get': h_seq_get,
     'iter::once': h_iter_once, 'sources::once': h_iter_once, 'once::once': h_iter_once, 'Iterator::chain': h_iter_chain, 'slice::windows': h_windows, 'Option::unwrap': h_opt_unwrap,
     'IndexMut::index_mut': h_index_mut,
-    'Option::ok_or_else': h_ok_or_else, 'Option::ok_or': h_ok_or, 'Try::branch': h_try_branch, 'FromResidual::from_residual': h_from_residual, 'slice::to_vec': h_to_vec, 'Iterator::take': h_iter_take, 'Iterator::skip': h_iter_skip, 'slice::reverse': h_reverse, 'Vec::append': h_vec_append, 'mem::swap': h_mem_swap,
+    'Option::ok_or_else': h_ok_or_else, 'Option::ok_or': h_ok_or, 'Try::branch': h_try_branch, 'FromResidual::from_residual': h_from_residual, 'slice::split_last': h_split_last, 'slice::split_first': h_split_first, 'Iterator::find_map': h_iter_find_map, 'Result::ok': h_result_ok, 'Vec::retain': h_retain, 'usize::saturating_sub': h_saturating_sub, 'Option::expect': h_opt_unwrap, 'slice::to_vec': h_to_vec, 'Iterator::take': h_iter_take, 'Iterator::skip': h_iter_skip, 'slice::reverse': h_reverse, 'Vec::append': h_vec_append, 'mem::swap': h_mem_swap,
     'PartialEq::eq': h_str_eq, 'str::eq': h_str_eq, 'iter::successors': h_successors, 'successors::successors': h_successors, 'sources::successors': h_successors,
     'Index::index': h_vec_index, 'Vec::new': h_vec_new, 'Vec::with_capacity': h_vec_new, 'Vec::push': h_vec_push, 'slice::iter_mut': h_iter_mut, 'Vec::iter_mut': h_iter_mut, 'Iterator::filter': h_iter_filter, 'Iterator::filter_map': h_iter_filter_map, 'Extend::extend': h_extend, 'Vec::extend': h_extend,
 })
